@@ -21,12 +21,13 @@ func Run(r *core.Report, env *build.Env) {
 	r.Assumptions = append(r.Assumptions, "the reference inadmissibility relation per operator is written in the harness from the language rules; only the direction 'inadmissible => error diagnostic and faulty module' is asserted",
 		"operators are symbolic values of the operator enumeration; operand types are type terms of depth <= 1 with symbolic primitive kinds")
 	r.Outside = append(r.Outside, "fault classes decided by the parser: leaving/continuing outside loops, missing final return, article/gender agreement, visibility across modules, constant protection in the expression parser",
-		"function call arguments and struct literals (argument maps)", "whole programs: that no executable is produced")
+		"whole programs: that no executable is produced")
 	hs := []goh.Harness{
 		{Pkg: "src/parser/typechecker", Func: "VerifC04Unary", Bound: "every unary operator x every operand type term of depth <= 1"},
 		{Pkg: "src/parser/typechecker", Func: "VerifC04Binary", Bound: "every binary operator x every pair of operand type terms of depth <= 1"},
 		{Pkg: "src/parser/typechecker", Func: "VerifC04Statements", Bound: "conditions of wenn/solange/mache, repeat counts, returned values: every type term of depth <= 1"},
 		{Pkg: "src/parser/typechecker", Func: "VerifC07SilentRestores", Bound: "speculative (silent) evaluation of an ill-typed expression: all prior flag values; later errors are delivered again"},
+		{Pkg: "src/parser/typechecker", Func: "VerifC04CallArgs", Bound: "call / Kombination literal with 2 arguments: one parameter/argument pair as type terms of depth <= 1 (the other Zahl/Zahl), Referenz flags and assignability of both symbolic"},
 		{Pkg: "src/parser/resolver", Func: "VerifC04Scopes2", Bound: "2 declarations (variable/Konstante/function, symbolic 1-byte names) over 3 nested scopes, then a use or an assignment"},
 		{Pkg: "src/parser/resolver", Func: "VerifC04Scopes3", Bound: "3 declarations over 3 nested scopes, then a use or an assignment"},
 	}
